@@ -10,7 +10,8 @@ from fractions import Fraction
 from vf import core
 
 S = 0.25
-ROOTS = {1: [1, 5, -3], 2: [3, -2], 3: [3, 7]}
+ROOTS = {1: [1, 5, -3], 2: [3, -2], 3: [3, 7]}         # SimRoots of OdeSystemMC.tla
+ROOTS_AD = {1: [1], 2: [3], 3: [3]}                   # SimRootsAd (adaptive replay)
 TERMINAL = {2}
 STATUS = {"Integration has not been run.": "notrun", "Integration completed successfully.": "done",
           "Integration terminated upon finding a triggered event.": "event"}
@@ -77,10 +78,10 @@ def scripted_class(script, st):
     return Scripted
 
 
-def _events():
+def _events(table):
     fns = []
     for k in (1, 2, 3):
-        roots = [r * S for r in ROOTS[k]]
+        roots = [r * S for r in table[k]]
 
         def g(t, y, _roots=roots, **kw):
             v = 1.0
@@ -135,7 +136,7 @@ def replay(log, method):
         finally:
             st["depth"] -= 1
     sys_.integrate = integrate
-    evfns = _events()
+    evfns = _events(ROOTS_AD if method == "scripted" else ROOTS)
 
     def wrap_ev(g):
         def h(t, y, **kw):
@@ -308,7 +309,9 @@ def phase(run, cfgs, prefix, kinds, keep=None, replay=None, num=None):
         logs = []
         n_states = 0
         for cfg in cfgs:
-            b, r = behaviours(cfg, num, run.seed)
+            # the adaptive model branches on what the integrator returns at every step: more behaviours are needed to meet the rare
+            # combinations (a clamped last step that the integrator itself shortens)
+            b, r = behaviours(cfg, num * (5 if "adaptive" in cfg else 1), run.seed)
             m = re.search(r"The number of states generated: (\d+)", r.out)
             n_states += int(m.group(1)) if m else 0
             run.mc_runs.append({"module": "OdeSystemSim", "cfg": cfg, "simulate": "num=%d" % num, "generated": int(m.group(1)) if m else 0,
@@ -334,7 +337,9 @@ def phase(run, cfgs, prefix, kinds, keep=None, replay=None, num=None):
     run.notes["model_replay"] = {"behaviours": len(items), "api_calls": sum(r["calls"] for r in res), "simulated_states": n_states,
                                  "with_events": sum(1 for lg, _ in items if any(e["k"] == "ret" and e["p"]["events"] for e in lg)),
                                  "with_fault": sum(1 for lg, _ in items if any(e["k"] == "fault" for e in lg)),
-                                 "with_callback_assignment": sum(1 for lg, _ in items if any(e["k"] == "cb" and e["set"] for e in lg))}
+                                 "with_callback_assignment": sum(1 for lg, _ in items if any(e["k"] == "cb" and e["set"] for e in lg)),
+                                 "with_shortened_step": sum(1 for lg, _ in items if any(e["k"] == "step" and e["dT"] != e["h"] for e in lg)),
+                                 "with_shortened_last_step": sum(1 for lg, _ in items if any(e["k"] == "step" and e["dT"] != e["h"] and e.get("final") for e in lg))}
     return nviol
 
 
